@@ -196,6 +196,51 @@ def task_RT(pr, repo, w, seg, lo, hi, base, off, pad):
     pr.notes.append('RT w=%d %s pad %r: %d paths' % (w, seg, pad, len(paths)))
 
 
+def task_call_site(pr, repo):
+    """CS: the PDB reader takes the serial number from the decoder and from nowhere else: Atom.set_properties calls
+    hybrid36.decode exactly once, on columns 7-11 as they stand, stores its result and lets its ValueError through - so a field the
+    decoder rejects is rejected by the reader too."""
+    from pyvc.values import PyRaise
+    ex = Executor(repo)
+    fi = repo.func('propka.atom.Atom.set_properties')
+    pr.under_contract(fi)
+    A = repo.cls('propka.atom.Atom')
+
+    def thunk(ex, ctx):
+        field = [I('f%d' % i) for i in range(5)]
+        for c in field:
+            ctx.assume(And(c >= 32, c <= 126))
+        head = [ord(c) for c in 'ATOM  ']
+        tail = [ord(c) for c in ' CA  ALA A   1      11.000  12.000  13.000  1.00  0.00           C  ']
+        line = mk_str(head + field + tail)
+        calls = []
+        rejected = B('decoder_rejects')
+
+        def dec(ex_, c_, f_, a, k, so):
+            calls.append(a[0])
+            if c_.branch(rejected):
+                raise PyRaise('ValueError', 'invalid number literal')
+            return I('decoded')
+        ex.contracts[FN] = dec
+        atom = record('atom', A, bonded_atoms=[])
+        try:
+            ex.call_function(fi, [line], self_obj=atom)
+            raised = None
+        except PyRaise as e:
+            raised = e.exc_name
+        ok = len(calls) == 1
+        conj = [ok]
+        if ok:
+            conj.append(ex.equals(calls[0], mk_str(field)))
+            if raised is None:
+                conj.append(And(Not(rejected), atom.attrs['numb'] == I('decoded')))
+            else:
+                conj.append(And(rejected, raised == 'ValueError'))
+        ctx.oblige('CS: set_properties decodes columns 7-11 once with hybrid36.decode, stores the result as the serial number, and a '
+                   'field the decoder rejects makes the reader raise ValueError', And(*conj))
+    pr.explore(ex, thunk, 'Atom.set_properties serial field')
+
+
 def run(pr, repo):
     fi = repo.func(FN)
     pr.under_contract(fi)
@@ -216,6 +261,7 @@ def run(pr, repo):
                 if pr.tier == 'quick' and pad != (0, 0) and w not in (1, 5):
                     continue
                 tasks.append((task_RT, (w, seg, lo, hi, base, off, pad)))
+    tasks.append((task_call_site, ()))
     pr.parallel(tasks)
 
     # ---- MO: strict monotonicity along the encoding order (on value(), which F ties to decode)
